@@ -40,7 +40,7 @@ func genC13(t *rapid.T) c13Case {
 	}
 	c.A, c.AC, c.B, c.BC = hx(a), ac, hx(b), bc
 	c.Sess, c.SessC = genSession(t)
-	c.Alter = rapid.SampledFrom([]string{"", "", "", "", "cA+1", "cA-rand", "cA-add", "cA-mult2", "cB+1", "cB-rand", "cB-add", "cB-mult2", "wrong-B", "wrong-B-adaptive", "swap-c"}).Draw(t, "alter")
+	c.Alter = rapid.SampledFrom([]string{"", "", "", "", "cA+1", "cA-rand", "cA-add", "cA-mult2", "cB+1", "cB-rand", "cB-add", "cB-mult2", "wrong-B", "wrong-B-adaptive", "wrong-B-mirrored", "swap-c"}).Draw(t, "alter")
 	c.Delta = hx(add(drawBigBits(t, "delta", 200), 1))
 	return c
 }
@@ -82,6 +82,35 @@ func runC13(c c13Case) ev.Outcome {
 			return r
 		}
 		return ct
+	}
+	if c.Alter == "wrong-B-mirrored" {
+		// a cheating Bob known by B = b*G puts q-b into the ciphertext, proves honestly for q-b and sends the mask
+		// point negated: both sides of Alice's point equation then differ only in sign. Alice must reject
+		// (alpha + beta would be -a*b). Calibration: the same reference prover, unmirrored, for the point
+		// (q-b)*G must be accepted.
+		if !c.WC || b.Sign() == 0 {
+			out.Skip = true
+			return out
+		}
+		bm := new(big.Int).Sub(q, b)
+		B := crypto.ScalarBaseMult(cv.EC, b)
+		y := randBelow(pow(q, 5))
+		cY, r, _ := pkA.EncryptAndReturnRandomness(rand.Reader, y)
+		cB, _ := pkA.HomoMult(bm, cA)
+		cB, _ = pkA.HomoAdd(cB, cY)
+		km := defaultBobMasks(q, pkA.N, ap.NTildei)
+		ctl := refBobProof(sess, cv, pkA.N, ap.NTildei, ap.H1i, ap.H2i, cA, cB, bm, y, r, crypto.ScalarBaseMult(cv.EC, bm), km)
+		if v, err := mta.AliceEndWC(sess, cv.EC, pkA, ctl, crypto.ScalarBaseMult(cv.EC, bm), cA, cB, ap.NTildei, ap.H1i, ap.H2i, ap.PaillierSK); err != nil || v == nil {
+			out.Label += " (uncalibrated: reference prover not accepted)"
+			out.Nontrivial = false
+			return out
+		}
+		km.NegU = true
+		pf := refBobProof(sess, cv, pkA.N, ap.NTildei, ap.H1i, ap.H2i, cA, cB, bm, y, r, B, km)
+		if v, err := mta.AliceEndWC(sess, cv.EC, pkA, pf, B, cA, cB, ap.NTildei, ap.H1i, ap.H2i, ap.PaillierSK); err == nil || v != nil {
+			return fail("wrong-point-accepted", "Alice accepted a with-check response for B = b*G although the multiplier used is q-b (mirrored mask point)")
+		}
+		return out
 	}
 	if c.Alter == "wrong-B-adaptive" {
 		// a cheating Bob: multiplier b goes into the ciphertext, but he claims the point B' = (b+1)*G. He runs
